@@ -426,7 +426,7 @@ func Main(args []string) int {
 	if budget > 0 {
 		r.Budget = time.Duration(budget) * time.Second
 	} else if tier == "thorough" {
-		r.Budget = 25 * time.Minute
+		r.Budget = 18 * time.Minute
 	} else {
 		r.Budget = 5 * time.Minute
 	}
